@@ -342,7 +342,9 @@ class ClientWorldObjectManager:
             obj = obj.Parent
 
     def clear(self):
-        for handle in tuple(self._region_managers.keys()):
+        for handle, region_mgr in tuple(self._region_managers.items()):
+            # The region's own view of its objects and any pending requests have to go as well
+            region_mgr.state.clear()
             self.untrack_region_objects(handle)
         self._avatars.clear()
         if self._fullid_lookup:
